@@ -255,7 +255,7 @@ func init() {
 		// (a function whose yields are all missed by the compiler's generator discovery is emitted unchanged)
 		nbare := 0
 		for _, inj := range all {
-			if inj.control || !(strings.Contains(inj.stmt, "$YIELD") || strings.Contains(inj.stmt, "$YFROM")) {
+			if inj.control || !(strings.Contains(inj.stmt, "$YIELD") || strings.Contains(inj.stmt, "$YFROM")) { // ($YIELDFN counts)
 				continue
 			}
 			n++
